@@ -26,7 +26,7 @@ ASSUMPTIONS = ['"secret" is matched as a lower-case substring of the resource na
                'visible-control expectations are dropped for a host that contains a resource whose repr raises (the whole section is then reported as failed inline)']
 REQUIRED_REACH = ['secret-resources-rendered', 'redaction-marker-seen:html', 'redaction-marker-seen:json', 'visible-control-seen:html',
                   'visible-control-seen:json', 'json-view-parsed', 'cookie-key-hosts', 'depth:2', 'name:prefix', 'name:infix', 'name:suffix',
-                  'value:bytes', 'value:rawbytes', 'value:number', 'value:nested', 'value:object-repr', 'value:bad-repr', 'inline-section-failure-seen', 'host-context-processor', 'route:render-arg-object',
+                  'value:bytes', 'value:rawbytes', 'value:number', 'value:nested', 'value:object-repr', 'value:long-nospace', 'value:long-words', 'value:bad-repr', 'inline-section-failure-seen', 'host-context-processor', 'route:render-arg-object',
                   'fault-injected', 'same-meta-application-asked-through-two-applications']
 NSHARDS = 16
 SECRET_NAMES = {'prefix': ['secret_key', 'secret-token', 'secretX', 'secret_' + 'x' * 60],
@@ -62,6 +62,10 @@ def make_value(kind, sentinel):
         return {'k': [1, {'deep': sentinel}], 's': (sentinel,)}
     if kind == 'object-repr':
         return ReprCarrier(sentinel)
+    if kind == 'long-nospace':     # a URL, a hex digest, a token: long and without a blank to break at
+        return sentinel + '/' + 'a1b2c3d4' * 20
+    if kind == 'long-words':
+        return sentinel + ' lorem ipsum dolor' * 12
     return BadRepr()
 
 
@@ -85,7 +89,7 @@ def gen_host(rng, n):
         if name in used:
             continue
         used.add(name)
-        kind = rng.pick(['str', 'str', 'bytes', 'rawbytes', 'number', 'nested', 'object-repr'] + (['bad-repr'] if rng.chance(0.15) else []))
+        kind = rng.pick(['str', 'str', 'bytes', 'rawbytes', 'number', 'nested', 'object-repr', 'long-nospace', 'long-words'] + (['bad-repr'] if rng.chance(0.15) else []))
         res.append({'name': name, 'secret': secret, 'pos': pos, 'kind': kind, 'sentinel': sentinel(kind)})
     routes = [rng.pick(['func', 'lambda', 'method', 'callable', 'static', 'classm', 'decorated', 'reroute', 'staticfile', 'staticapp',
                         'subapp', 'render-arg', 'render-arg-object', 'partial-render', 'methods'])
